@@ -1,7 +1,7 @@
 SPECIFICATION FairSpec
 CONSTANT Ser = FALSE
-CONSTANT Bar = FALSE
-CONSTANT Pop = "same"
+CONSTANT Bar = TRUE
+CONSTANT Pop = "concinit"
 INVARIANT TypeOK
 INVARIANT NoInterference
 PROPERTY Completes
